@@ -52,7 +52,7 @@ func (c05) Runs(t Tier) int {
 }
 func (c05) RecordWidths() map[string]int { return map[string]int{"ops": 3} }
 func (c05) RequiredProbes() []string {
-	return []string{"range-starts-on-boundary", "range-ends-on-boundary", "range-inside-one-chunk", "range-empty", "range-whole-file", "subset-traversal", "lookup-member", "lookup-nonmember", "hamt-depth>=3", "path-through-hamt", "path-to-multiblock-file", "starved-ok"}
+	return []string{"range-starts-on-boundary", "range-ends-on-boundary", "range-inside-one-chunk", "range-empty", "range-whole-file", "reader-history", "subset-traversal", "lookup-member", "lookup-nonmember", "hamt-depth>=3", "path-through-hamt", "path-to-multiblock-file", "starved-ok"}
 }
 
 type c05Scenario struct {
@@ -115,6 +115,153 @@ func (c05) runFile(ts *tape.Set, tier Tier) *Result {
 	res.Scenario = sc
 	ops := ts.T("ops")
 	var sig uint64
+	pickEdgeH := func(r uint64) int64 {
+		switch r % 6 {
+		case 0, 1:
+			return bounds[int((r>>8)%uint64(len(bounds)))]
+		case 2:
+			return bounds[int((r>>8)%uint64(len(bounds)))] + int64((r>>40)%3) - 1
+		case 3:
+			return 0
+		case 4:
+			return L
+		default:
+			return int64((r >> 8) % uint64(L+1))
+		}
+	}
+	if shape.Intn(3) == 0 {
+		// ---- one reader, several requests in a row: each request on its own
+		// must stay within the blocks its range needs, whatever the reader
+		// did before (a history, not a single call)
+		type step struct {
+			a, b   int64
+			whence int
+		}
+		var steps []step
+		union := map[string]bool{}
+		for i := 0; i < 2+nOps%4; i++ {
+			w := ops.Intn(3)
+			a, b := pickEdgeH(ops.Raw()), pickEdgeH(ops.Raw())
+			if a < 0 {
+				a = 0
+			}
+			if b < 0 {
+				b = 0
+			}
+			if a > L {
+				a = L
+			}
+			if b > L {
+				b = L
+			}
+			if a > b {
+				a, b = b, a
+			}
+			// keep requests short so that there is something not to fetch
+			if b-a > 600 {
+				b = a + 1 + (b-a)%600
+			}
+			steps = append(steps, step{a, b, w})
+			for k := range model.Allowed(a, b) {
+				union[k] = true
+			}
+			sc.Ops = append(sc.Ops, fmt.Sprintf("history step %d: %s to %d, readfull %d", i, []string{"SeekStart", "SeekCurrent", "SeekEnd"}[w], a, b-a))
+		}
+		res.probe("reader-history")
+		if len(union) < len(model.BlockSet()) {
+			res.NonTrivial = true
+		}
+		for _, starve := range []bool{false, true} {
+			st.ResetLog()
+			st.ReadPolicy = nil
+			st.Frag = fragFn(fragSeed, fragMode)
+			w := world.New(st, false)
+			var outside []cid.Cid
+			var failMsg, failClass string
+			panicked, site, pmsg := guard(func() {
+				n, _, err := openFile(w, root, 1)
+				if err != nil {
+					failClass, failMsg = "skip", "open: "+err.Error()
+					return
+				}
+				rs, err := n.(datamodel.LargeBytesNode).AsLargeBytes()
+				if err != nil {
+					failClass, failMsg = "skip", err.Error()
+					return
+				}
+				pos := int64(0)
+				for i, stp := range steps {
+					allowed := union
+					if !starve {
+						allowed = model.Allowed(stp.a, stp.b)
+					}
+					outside = nil
+					monitor(st, allowed, starve, &outside)
+					var off int64
+					var whence int
+					switch stp.whence {
+					case 0:
+						whence, off = io.SeekStart, stp.a
+					case 1:
+						whence, off = io.SeekCurrent, stp.a-pos
+					default:
+						whence, off = io.SeekEnd, stp.a-L
+					}
+					if _, err := rs.Seek(off, whence); err != nil {
+						failClass, failMsg = "err", fmt.Sprintf("step %d: seek: %v", i, err)
+						return
+					}
+					got := make([]byte, stp.b-stp.a)
+					if _, err := io.ReadFull(rs, got); err != nil {
+						failClass, failMsg = "err", fmt.Sprintf("step %d: readfull: %v", i, err)
+						return
+					}
+					pos = stp.b
+					if !starve && len(outside) > 0 {
+						failClass = "over-fetch"
+						failMsg = fmt.Sprintf("step %d of a reader history (%s to %d then ReadFull(%d)) requested %d block(s) outside the %d its range needs (first: %s, span %s)", i, []string{"SeekStart", "SeekCurrent", "SeekEnd"}[stp.whence], stp.a, stp.b-stp.a, len(outside), len(allowed), shortCid(outside[0]), spanOf(model, outside[0]))
+						return
+					}
+					if !bytes.Equal(got, content[stp.a:stp.b]) {
+						failClass, failMsg = "bytes", fmt.Sprintf("step %d: returned bytes differ from content[%d:%d]", i, stp.a, stp.b)
+						return
+					}
+				}
+			})
+			res.Execs++
+			res.Events += len(st.Log)
+			sig = sigOfLog(fnvMix(sig, 21, boolU(starve), uint64(len(steps))), st.Log)
+			if panicked {
+				res.Violation = &Violation{Class: "c05/file/panic@" + site, Msg: "reader history panicked: " + pmsg}
+				break
+			}
+			switch failClass {
+			case "":
+				if starve {
+					res.probe("starved-ok")
+				}
+			case "over-fetch":
+				res.Violation = &Violation{Class: "c05/file/over-fetch-in-history", Msg: failMsg}
+				res.Excerpt = excerpt(st.Log, 12)
+			case "skip":
+				res.Skipped, res.SkipReason = true, failMsg
+				return res
+			default:
+				if starve {
+					res.Violation = &Violation{Class: "c05/file/needs-unrelated-block", Msg: "starved store (union of the ranges' blocks available): " + failMsg}
+					res.Excerpt = excerpt(st.Log, 12)
+				} else {
+					res.Skipped, res.SkipReason = true, "fault-free history failed (C04's subject): "+failMsg
+					return res
+				}
+			}
+			if res.Violation != nil {
+				break
+			}
+		}
+		res.Sig = sig
+		return res
+	}
 	for i := 0; i < nOps && res.Violation == nil; i++ {
 		mode := ops.Pick(3, 2)
 		ra, rb := ops.Raw(), ops.Raw()
